@@ -22,12 +22,11 @@ Open Scope N_scope.
    X and only approved contents (valid_request); then exactly that object is
    written (C18 write: every other object keeps its content, C18_write_frame)
    and the answer is 2xx; otherwise the answer is 4xx and the bucket tree is
-   unchanged.  Excluded: a null program entry reached by the validation loop
-   (known finding, C12_null_program_refuted). *)
+   unchanged.  A null program entry is not approved content (fix b5cf921:
+   rejected, not dereferenced). *)
 Theorem C12_stores_iff_valid : forall semver marshal cfg m method size_ok decoded,
   upload_store m ->
   (forall r, decoded = Some r -> g_string (r_xs r) = true) ->
-  null_program_reached semver cfg decoded = false ->
   (fst (handle semver marshal cfg method size_ok decoded m) = S2xx <->
      valid_request semver cfg method size_ok decoded = true) /\
   (valid_request semver cfg method size_ok decoded = true ->
@@ -44,7 +43,6 @@ Print Assumptions C12_stores_iff_valid.
 Theorem C12_handle_is_expected : forall semver marshal cfg m method size_ok decoded,
   upload_store m ->
   (forall r, decoded = Some r -> g_string (r_xs r) = true) ->
-  null_program_reached semver cfg decoded = false ->
   handle semver marshal cfg method size_ok decoded m = expected semver marshal cfg method size_ok decoded m /\
   upload_store (snd (handle semver marshal cfg method size_ok decoded m)).
 Proof. exact handle_expected. Qed.
@@ -109,14 +107,13 @@ Print Assumptions C12_wrong_method_refused.
 Theorem C12_never_5xx : forall semver marshal cfg m method size_ok decoded,
   upload_store m ->
   (forall r, decoded = Some r -> g_string (r_xs r) = true) ->
-  null_program_reached semver cfg decoded = false ->
   fst (handle semver marshal cfg method size_ok decoded m) <> S5xx.
 Proof. exact never_5xx. Qed.
 Print Assumptions C12_never_5xx.
 
 (* all request sequences on a bucket that starts as an upload store *)
 Theorem C12_all_request_sequences : forall semver marshal cfg qs m,
-  upload_store m -> Forall (good_request semver cfg) qs ->
+  upload_store m -> Forall good_request qs ->
   Forall (fun st => st <> S5xx) (fst (serve semver marshal cfg m qs)) /\
   upload_store (snd (serve semver marshal cfg m qs)).
 Proof. exact serve_never_5xx. Qed.
@@ -125,19 +122,12 @@ Theorem C12_fresh_bucket_is_upload_store : upload_store fs_init.
 Proof. exact upload_store_init. Qed.
 Print Assumptions C12_fresh_bucket_is_upload_store.
 
-(* the deviation: {"Programs":[null]} is answered 5xx (recovered panic) *)
-Theorem C12_null_program_refuted :
-  handle (fun _ => true) (fun _ => []) empty_config post true (Some null_report) fs_init = (S5xx, fs_init) /\
-  valid_request (fun _ => true) empty_config post true (Some null_report) = false /\
-  null_program_reached (fun _ => true) empty_config (Some null_report) = true.
-Proof. exact null_program_refuted. Qed.
-Print Assumptions C12_null_program_refuted.
-Theorem C12_null_program_only_when_null : forall semver cfg r,
-  validate semver cfg r = VPanic -> In None (r_programs r).
-Proof. exact validate_panic_null. Qed.
-Print Assumptions C12_null_program_only_when_null.
-
 (* Non-vacuity *)
+(* {"Programs":[null]}: refused with 4xx, nothing stored (was 5xx before fix b5cf921) *)
+Example C12_example_null_program :
+  handle (fun _ => true) (fun _ => []) empty_config post true (Some null_report) fs_init = (S4xx, fs_init) /\
+  valid_request (fun _ => true) empty_config post true (Some null_report) = false.
+Proof. exact null_program_example. Qed.
 Example C12_example_valid :
   valid_request (fun _ => true) empty_config post true (Some ok_report) = true /\
   g_string (r_xs ok_report) = true /\
